@@ -281,6 +281,9 @@ func c08Exec(c fw.Case) *fw.Result {
 		o = pbfw.GenOpts{MinBlocks: 8, MaxBlocks: 20, MaxGroups: 2, MaxElems: 6}
 	}
 	f := pbfw.GenFile(r, o)
+	if c.Int("noheader") == 1 {
+		f.Header = nil // a resumed stream: the first block is a data block
+	}
 	data, _ := f.Encode(nil)
 	want := f.ExpectAll()
 	keyBase := "C08"
@@ -330,7 +333,7 @@ func c08Cases(tier string, seed uint64) []fw.Case {
 		}
 		for i := 0; i < m; i++ {
 			cs = append(cs, fw.Case{Kind: "filter", Variant: v, Seed: gen.Sub(seed, "c08", i), P: map[string]int64{
-				"configs": 4, "skipmask": int64(i % 8), "withpred": int64((i / 8) % 2), "pred": int64(i / 16), "profile": int64(i % 4 / 3)}})
+				"configs": 4, "skipmask": int64(i % 8), "withpred": int64((i / 8) % 2), "pred": int64(i / 16), "profile": int64(i % 4 / 3), "noheader": int64(b2i(i%7 == 5))}})
 		}
 	}
 	return fw.Number(cs)
@@ -340,7 +343,7 @@ func init() {
 	fw.Register(&fw.Prop{
 		ID:    "C08",
 		Level: "exploration",
-		Rule: "PRNG files from the C01 generator (optional fields vary between neighbours); per file 4 configurations: the 8 skip-flag combinations swept systematically, predicates {none installed, all, none, alternating, pos mod 3, four-rejected-one-accepted, only tagless, only tagged, only big} per element type, decoders {1,3,8}; every second configuration with a consumer that appends to the lists of each returned object at once (ownership: no other returned object may change). " +
+		Rule: "PRNG files from the C01 generator (optional fields vary between neighbours; a seventh of them without header block); per file 4 configurations: the 8 skip-flag combinations swept systematically, predicates {none installed, all, none, alternating, pos mod 3, four-rejected-one-accepted, only tagless, only tagged, only big} per element type, decoders {1,3,8}; every second configuration with a consumer that appends to the lists of each returned object at once (ownership: no other returned object may change). " +
 			"Signature = (skip mask, predicate per type, which memory-reuse neighbour patterns occur: rejected-with-tags→accepted-without, rejected-with-children→accepted-with-fewer, rejected-with-metadata→accepted-without); distinct_nontrivial counts distinct signatures.",
 		Assumptions: []string{
 			"predicates are pure functions of the element's file position and content and never retain their argument",
